@@ -9,7 +9,7 @@
      dry_model q W k files the model of src/linters/dry built from Gen/DryGen.v under quirk vector q
    Domain: 1 <= W (min_duplicate_lines; the correspondence check uses W >= 2), 2 <= k (min_occurrences). *)
 From TL Require Import Lib.Base Lib.GenTypes Model.DryBase Model.DryPipe Gen.DryGen Model.Dry Model.DrySpec
-     Proofs.DryGreedy Proofs.DryStageB Proofs.DryStageA Proofs.DryMain.
+     Model.DryRun Actual.DryActual Proofs.DryGreedy Proofs.DryStageB Proofs.DryStageA Proofs.DryMain Proofs.DryMsg Proofs.DryOracle.
 
 (* 0. With every quirk flag off the model built from the source IS the reference pipeline: exact equality
       of the reported list, for all projects and all W, k. *)
@@ -115,6 +115,28 @@ Proof.
         (conj gen_sql (conj gen_message_format (conj gen_extract_literals gen_rule_id))))))))).
 Qed.
 Print Assumptions C03_source_literals.
+
+(* 10. The line count the violation filter parses back out of a message (`(` ... ` lines`, +1) is the count the
+       message was built from, for every violation and every path list: the model may pass the count directly. *)
+Theorem C03_count_read_back_from_message : forall paths v, extract_line_count (v_message paths v) = Some (v_count v).
+Proof. exact extract_roundtrip. Qed.
+Print Assumptions C03_count_read_back_from_message.
+
+(* 11. The executable clauses that judge the IMPLEMENTATION's output on every generated case are sound checkers:
+       an accepted reported list satisfies the corresponding clause of the property (rows = the reference rows in
+       the ordinary stream, the stored rows in the filter-provoking stream). *)
+Theorem C03_oracle_sound_clause : forall files W R, sound_b files W R = true -> sound files W R.
+Proof. exact sound_b_sound. Qed.
+Print Assumptions C03_oracle_sound_clause.
+Theorem C03_oracle_mutual_clause : forall R, mutual_b R = true -> mutual R.
+Proof. exact mutual_b_mutual. Qed.
+Print Assumptions C03_oracle_mutual_clause.
+Theorem C03_oracle_count_clause : forall rows R, rows_ok rows -> count_b rows R = true -> forall v, In v R -> count_ok rows v.
+Proof. exact count_b_ok. Qed.
+Print Assumptions C03_oracle_count_clause.
+Theorem C03_oracle_complete_clause : forall rows k R, rows_ok rows -> 2 <= k -> complete_b rows k R = true -> complete rows k R.
+Proof. exact complete_b_complete. Qed.
+Print Assumptions C03_oracle_complete_clause.
 
 (* non-vacuity: a two-file project sharing a 3-statement run (different indentation, a comment and a blank
    line interleaved): both places are reported, each naming the other, with the documented message *)
